@@ -260,10 +260,14 @@ def gen_pattern(shape, x, y, z):
         "[%s] AND [%s] AND [%s]" % (A, A, B), "[%s] OR ([%s] AND [%s])" % (A, A, B),
         "([%s] AND [%s]) WITHIN 1 SECONDS" % (A, B), "[%s] REPEATS 2 TIMES" % A, "([%s] OR [%s]) REPEATS 2 TIMES" % (A, B),
         "[%s] AND ([%s] OR [%s])" % (C, B, A), "([%s] AND [%s]) OR ([%s] AND [%s])" % (C, B, C, A),
+        # repeated operands: AND binds distinct observations, so a repeated operand is not redundant (absorption / containment must count multiplicity)
+        "([%s] AND [%s]) OR ([%s] AND [%s])" % (A, A, A, B), "[%s] AND [%s]" % (A, A), "([%s] AND [%s]) OR ([%s] AND [%s] AND [%s])" % (A, B, A, B, C),
+        "([%s] AND [%s] AND [%s]) OR ([%s] AND [%s])" % (A, A, B, A, B), "([%s] FOLLOWEDBY [%s]) OR ([%s] FOLLOWEDBY [%s])" % (A, A, A, B),
+        "(([%s] OR [%s]) AND [%s]) OR ([%s] AND [%s])" % (A, A, B, A, B),
     ][shape]
 
 
-NSHAPE = 23
+NSHAPE = 29
 NAT = len(ATOMS_T)
 NX, NY, NZ = (4, 3, 1) if TIER == "quick" else (NAT, NAT, 2)
 
@@ -365,6 +369,44 @@ def rewrites(i: int, which: int) -> bool:
 
 
 # ---------------------------------------------------------------- e. special values: canonical, idempotent, never crash
+# the documented rewrites applied inside a larger pattern (comparison-level and observation-level contexts; {t} is the pattern's object type)
+CCTX = ["[{p} AND {t}:z = 9]", "[({p}) OR {t}:z = 9]", "[{t}:y = 8 OR (({p}) AND {t}:z = 9)]", "[({p}) AND ({t}:y = 8 OR {t}:z = 9)]", "[(({p}) OR {t}:y = 8) AND {t}:z = 9]",
+        "[(({p}) AND {t}:z = 9) OR (({q}) AND {t}:z = 9)]", "[{t}:z = 9 AND (({p}) OR ({q}))]"]
+OCTX = ["({p}) AND [a:z = 9]", "({p}) OR [a:z = 9]", "[a:y = 8] FOLLOWEDBY (({p}) OR [a:z = 9])", "(({p}) AND [a:y = 8]) OR [a:z = 9]", "(({p}) OR [a:y = 8]) AND [a:z = 9]",
+        "({p}) FOLLOWEDBY [a:z = 9]", "(({p}) OR [a:y = 8]) FOLLOWEDBY [a:z = 9]", "(({p}) AND [a:z = 9]) WITHIN 5 SECONDS", "(({p}) OR [a:y = 8]) REPEATS 2 TIMES",
+        "(({p}) AND [a:z = 9]) OR (({q}) AND [a:z = 9])", "[a:z = 9] FOLLOWEDBY (({p}) OR ({q}))", "(({p}) OR ({q})) AND [a:z = 9]"]
+NCTX = len(CCTX) + len(OCTX)
+
+
+def rewrites_nested(i: int, ci: int) -> bool:
+    """
+    pre: 0 <= i < NRW and 0 <= ci < NCTX
+    post: _
+    """
+    i, ci = pick(i, NRW), pick(ci, NCTX)
+    with Native():
+        ok = run_nested_rewrite(i, ci)
+    V.reached()
+    return ok
+
+
+def run_nested_rewrite(i, ci):
+    """C[p] ~ C[q] for every documented rewrite p ~ q and context C; contexts with two holes hold p and q on the left and q twice on the right"""
+    p, q = REWRITES[i]
+    comp = p.count("[") == 1 and q.count("[") == 1
+    if ci < len(CCTX):
+        if not comp:
+            return True
+        t = p[1:p.index(":")].lstrip("(")
+        left = CCTX[ci].format(p="(%s)" % p[1:-1], q="(%s)" % q[1:-1], t=t)
+        right = CCTX[ci].format(p="(%s)" % q[1:-1], q="(%s)" % q[1:-1], t=t)
+    else:
+        c = OCTX[ci - len(CCTX)]
+        left, right = c.format(p=p, q=q), c.format(p=q, q=q)
+    return bool(equivalent_patterns(left, right, stix_version="2.1")) and bool(equivalent_patterns(right, left, stix_version="2.1")) \
+        and list(find_equivalent_patterns(left, [right, "[a:never = 0]"], stix_version="2.1")) == [right]
+
+
 SPECIAL_PATHS = [("ipv4-addr", ["value"]), ("ipv6-addr", ["value"]), ("windows-registry-key", ["key"]), ("windows-registry-key", ["values", 0, "name"]),
                  ("ipv4-addr", ["resolves_to_refs", 0]), ("file", ["name"])]
 SPECIAL_VALUES = ["10.1.2.3/8", "10.1.2.3", "10.1.2.3/32", "10.1.2.3/0", "10.1.2.3/33", "10.1.2.3/x", "999.1.1.1", "", "/", "1::2/64", "1:2:3:4:5:6:7:8/127",
@@ -469,3 +511,92 @@ def comp_norm_sound4(c1: int, c2: int, c3: int, c4: int, n1: bool, n2: bool, n3:
     out, _ = comp_normalizer().transform(mk())
     V.reached()
     return ev(out, v) == before
+
+
+# ---------------------------------------------------------------- f. address canonicalisation is sound: only well-formed addresses are rewritten
+import ipaddress  # noqa: E402
+import re as _re  # noqa: E402
+
+IP4_BASES = ["1.2.3.4", "1.2.3.0", "10.1.2.3", "1.2.0.3", "0.0.0.1", "8.1.1.1", "1.0.0.0"]
+IP6_BASES = ["1::2", "1:0:0:0:0:0:0:2", "1::", "a::b", "1:2:3:4:5:6:7:8"]
+# how a pattern author may spell (or mis-spell) the value; {a} is the address, {s3} its three-part short form (a.b.(c*256+d))
+DECOR = ["{a}", "{a}/32", "{a}/24", "{a}/8", "{a}/0", "{a}/128", "{a}/64", "{a} xyz", "{a} ", " {a}", "{a}\n", "{a}/+24", "{a}/ 24", "{a}/24 ", "{a}/2_4",
+         "{a}/٢٤", "{a}/024", "{a}/33", "{a}/-1", "{a}/", "{s3}", "0x{a}", "0{a}", "{a}/+64", "{a}/6_4", "{a}/129", "{A}", "{a}.", "{a}/24/8"]
+PLAIN = [0, 1, 2, 3, 4, 5, 6]      # decorations of the second value: the well-formed ones
+NDEC = len(DECOR)
+
+
+def _decorate(base, di, v6):
+    parts = base.split(".")
+    s3 = base if v6 or len(parts) != 4 else "%s.%s.%d" % (parts[0], parts[1], int(parts[2]) * 256 + int(parts[3]))
+    return DECOR[di].format(a=base, s3=s3, A=base.upper())
+
+
+def _ref_net(v, v6):
+    """reference reading of an address value: ('net', network integer, prefix) for a strictly well-formed address / CIDR block, ('raw', text) for
+    anything else (which then equals only itself); None where notations legitimately disagree (leading zeros: octal vs decimal)"""
+    m = _re.fullmatch(r"([^/]*)(?:/([0-9]+))?", v, _re.ASCII)
+    if not m:
+        return ("raw", v)
+    ip, pre = m.group(1), m.group(2)
+    bits = 128 if v6 else 32
+    if v6:
+        if "%" in ip or "." in ip:
+            return None
+        try:
+            n = int(ipaddress.IPv6Address(ip))
+        except ValueError:
+            return ("raw", v)
+    else:
+        q = _re.fullmatch(r"([0-9]+)\.([0-9]+)\.([0-9]+)\.([0-9]+)", ip, _re.ASCII)
+        if not q:
+            return ("raw", v)
+        if any(len(g) > 1 and g[0] == "0" for g in q.groups()):
+            return None
+        if any(int(g) > 255 for g in q.groups()):
+            return ("raw", v)
+        n = 0
+        for g in q.groups():
+            n = n * 256 + int(g)
+    if pre is None:
+        k = bits
+    else:
+        if len(pre) > 1 and pre[0] == "0":
+            return None
+        k = int(pre)
+        if k > bits:
+            return ("raw", v)
+    return ("net", (n >> (bits - k)) << (bits - k), k)
+
+
+def specials_sound(v6: bool, bi: int, di: int, bj: int, dj: int) -> bool:
+    """
+    pre: 0 <= bi < 7 and 0 <= bj < 7 and 0 <= di < NDEC and 0 <= dj < 7
+    pre: bi + (7 if v6 else 0) == PARTNO
+    post: _
+    """
+    v6 = pickb(v6)
+    nb = len(IP6_BASES) if v6 else len(IP4_BASES)
+    if bi >= nb or bj >= nb:
+        return True
+    bi, di, bj, dj = pick(bi, nb), pick(di, NDEC), pick(bj, nb), pick(dj, 7)
+    with Native():
+        ok = run_specials_sound(v6, bi, di, bj, dj)
+    V.reached()
+    return ok
+
+
+def run_specials_sound(v6, bi, di, bj, dj):
+    bases = IP6_BASES if v6 else IP4_BASES
+    v1, v2 = _decorate(bases[bi], di, v6), _decorate(bases[bj], PLAIN[dj], v6)
+    r1, r2 = _ref_net(v1, v6), _ref_net(v2, v6)
+    if r1 is None or r2 is None:
+        return True
+    t = "ipv6-addr" if v6 else "ipv4-addr"
+    esc = lambda s: s.replace("\\", "\\\\").replace("'", "\\'")   # noqa: E731
+    p1, p2 = "[%s:value = '%s']" % (t, esc(v1)), "[%s:value = '%s']" % (t, esc(v2))
+    e = bool(equivalent_patterns(p1, p2, stix_version="2.1"))
+    if bool(equivalent_patterns(p2, p1, stix_version="2.1")) != e:
+        return False
+    # sound: equivalent only if both denote the same network (or are the same text); complete for the documented CIDR canonicalisation
+    return e == (r1 == r2)
